@@ -103,12 +103,17 @@ def inject(deck, f):
         else:
             first = rngs[0]
             lo, hi = first.split(':')
+            good = opts[i + 1]
+            shadowed = var.endswith('_then_good')        # the malformed option is followed by the well-formed one
+            var = var[:-len('_then_good')] if shadowed else var
             opts[i + 1] = {'no_ranges': str(c['n']),
                            'four_ranges': ','.join([str(c['n'])] + (rngs + ['0:0'] * 4)[:4]),
                            'cell_not_int': ','.join(['c%d' % c['n']] + rngs),
                            'bound_not_int': ','.join([str(c['n']), lo + ':x'] + rngs[1:]),
                            'double_colon': ','.join([str(c['n']), lo + '::' + hi] + rngs[1:]),
                            'empty_range': str(c['n']) + ','}[var]
+            if shadowed:
+                opts[i + 2:i + 2] = ['--lattice', good]
     elif cls == 'fill_length':
         c = d['cells'][a - 1]
         if var == 'one_less':
